@@ -58,6 +58,40 @@ def _env_sym(ctx, env):
     return sym(ctx, "env", env)
 
 
+def cc_replay(cls, kind, ref, n, continuous=False, n_actions=3, env_kw=None):
+    """R1 for the classic-control obligations: the counter-model's state / successor / action, then a battery of random states at scales 1, 10 and 40
+    (beyond every velocity limit), through the REAL method of a default-constructed environment vs the Gymnasium reference formula evaluated natively."""
+    def replay(model):
+        env = cls(**(env_kw or {}))
+        State = type(env.initial(key=jax.random.key(0)))
+        rng = np.random.RandomState(9)
+        cands = []
+        if model is not None:
+            try:
+                y = [kit.model_float(model, f"y[{i}]", 0.0) for i in range(n)]
+                ny = [kit.model_float(model, f"ny[{i}]", 0.0) for i in range(n)]
+                cands.append((y, ny, kit.model_float(model, "action", 0.0)))
+            except Exception:
+                pass
+        for scale in (1.0, 10.0, 40.0):
+            for _ in range(6):
+                act = float(rng.uniform(-1, 1)) if continuous else float(rng.randint(0, n_actions))
+                cands.append(((rng.randn(n) * scale).tolist(), (rng.randn(n) * scale).tolist(), act))
+        for y, ny, act in cands:
+            yv, nyv = jnp.asarray(y, f32), jnp.asarray(ny, f32)
+            a = jnp.asarray(act, f32) if continuous else jnp.asarray(int(act))
+            s, ns = State(y=yv, t=jnp.asarray(0.0)), State(y=nyv, t=jnp.asarray(0.0))
+            kk = jax.random.key(0)
+            got, exp = dict(dynamics=lambda: (env.dynamics(jnp.asarray(0.0), yv, a), ref(env, yv, a)), clip=lambda: (env.clip(yv), ref(env, yv)),
+                            reward=lambda: (env.reward(s, a, ns, key=kk), ref(env, yv, a, nyv)), terminal=lambda: (env.terminal(ns, key=kk), ref(env, nyv)))[kind]()
+            got, exp = np.asarray(got, np.float64), np.asarray(exp, np.float64)
+            if got.shape != exp.shape or not np.allclose(got, exp, rtol=1e-4, atol=1e-4):
+                return dict(reproduced=True, route=f"R1 (real {cls.__name__}.{kind} of a default-constructed environment vs the Gymnasium formula)", inputs=dict(y=y, ny=ny, action=act),
+                            observed=dict(lerax=got.tolist(), gymnasium=exp.tolist()))
+        return dict(reproduced=False, note=f"{len(cands)} states (counter-model first, then random at scales 1/10/40): lerax and Gymnasium agree")
+    return replay
+
+
 def unit_cartpole(S):
     import diffrax
     F = "lerax.env.classic_control.cartpole:CartPole.{}"
@@ -73,7 +107,7 @@ def unit_cartpole(S):
     hyp = [z3.Or(ac == 0, ac == 1), env.total_mass.scalar() > 0, env.length.scalar() > 0, env.pole_mass.scalar() > 0, env.pole_mass.scalar() < env.total_mass.scalar()]
     dyn = run(ctx, lambda e, yy, aa: e.dynamics(jnp.asarray(0.0), yy, aa), env, y, a)
     ref = run(ctx, R.cartpole_field, env, y, a)
-    S.prove("CartPole.dynamics/vector-field", ctx, kit.tree_eq(dyn, ref), hyps=hyp, function=F.format("dynamics"), nl_budget_ms=5000,
+    S.prove("CartPole.dynamics/vector-field", ctx, kit.tree_eq(dyn, ref), hyps=hyp, function=F.format("dynamics"), nl_budget_ms=5000, replay=cc_replay(CC.CartPole, "dynamics", R.cartpole_field, 4, n_actions=2),
             what="the vector field equals Gymnasium's accelerations for every state, action and physical parameters")
     S.prove("CartPole.clip/no-state-limits", ctx, kit.tree_eq(run(ctx, lambda e, yy: e.clip(yy), env, y), y), function=F.format("clip"), what="CartPole has no state clipping (as Gymnasium)")
     st = CC.cartpole.CartPoleState(y=y, t=sym(ctx, "t", sd((), f32)))
@@ -86,8 +120,8 @@ def unit_cartpole(S):
             nl_budget_ms=5000, what="with the Euler solver (A-DIFFRAX) one lerax transition is exactly Gymnasium's Euler update of all four coordinates: CartPole reproduces Gymnasium trajectories")
     nstate = CC.cartpole.CartPoleState(y=ny, t=st.t)
     S.prove("CartPole.reward", ctx, ir.seq(run(ctx, lambda e, s, aa, n_, kk: e.reward(s, aa, n_, key=kk), env, st, a, nstate, k).scalar(), run(ctx, R.cartpole_reward, env, y, a, ny).scalar()),
-            function=F.format("reward"), what="+1 for every transition including the terminating one")
-    S.prove("CartPole.terminal", ctx, run(ctx, lambda e, n_, kk: e.terminal(n_, key=kk), env, nstate, k).scalar() == run(ctx, R.cartpole_terminated, env, ny).scalar(), function=F.format("terminal"),
+            function=F.format("reward"), replay=cc_replay(CC.CartPole, "reward", R.cartpole_reward, 4, n_actions=2), what="+1 for every transition including the terminating one")
+    S.prove("CartPole.terminal", ctx, run(ctx, lambda e, n_, kk: e.terminal(n_, key=kk), env, nstate, k).scalar() == run(ctx, R.cartpole_terminated, env, ny).scalar(), function=F.format("terminal"), replay=cc_replay(CC.CartPole, "terminal", R.cartpole_terminated, 4, n_actions=2),
             what="terminates iff |x| > x_threshold or |theta| > theta_threshold (strict, as Gymnasium)")
     _initial_range(S, ctx, env0, R.CARTPOLE_INIT, "CartPole", F.format("initial"), (4,))
 
@@ -136,7 +170,7 @@ def _mountaincar(S, cls, modname, field, limits, term, reward, continuous):
     k, kc = kit.key_input("key")
     dyn = run(ctx, lambda e, yy, aa: e.dynamics(jnp.asarray(0.0), yy, aa), env, y, a)
     ref = run(ctx, field, env, y, a)
-    S.prove(f"{name}.dynamics/vector-field", ctx, kit.tree_eq(dyn, ref), hyps=hyp, function=F.format("dynamics"), what="the vector field equals Gymnasium's update increments for every state and in-range action")
+    S.prove(f"{name}.dynamics/vector-field", ctx, kit.tree_eq(dyn, ref), hyps=hyp, function=F.format("dynamics"), replay=cc_replay(cls, "dynamics", field, 2, continuous), what="the vector field equals Gymnasium's update increments for every state and in-range action")
     cl = run(ctx, lambda e, yy: e.clip(yy), env, y)
     rl = run(ctx, limits, env, y)
     S.prove(f"{name}.clip/state-limits-incl-inelastic-left-wall", ctx, kit.tree_eq(cl, rl), hyps=hyp, function=F.format("clip"), replay=_wall_replay(cls),
@@ -146,10 +180,10 @@ def _mountaincar(S, cls, modname, field, limits, term, reward, continuous):
     s, ns = State(y=y, t=jnp.asarray(0.0)), State(y=ny, t=jnp.asarray(0.0))
     rw = run(ctx, lambda e, s_, aa, n_, kk: e.reward(s_, aa, n_, key=kk), env, s, a, ns, k)
     rr = run(ctx, reward, env, y, a, ny)
-    S.prove(f"{name}.reward/every-transition-incl-goal-step", ctx, ir.seq(rw.scalar(), rr.scalar()), hyps=hyp, function=F.format("reward"), replay=_goal_replay(cls) if continuous else None,
+    S.prove(f"{name}.reward/every-transition-incl-goal-step", ctx, ir.seq(rw.scalar(), rr.scalar()), hyps=hyp, function=F.format("reward"), replay=_goal_replay(cls) if continuous else cc_replay(cls, "reward", reward, 2),
             what="reward equals Gymnasium's for every transition (state, action, successor), in particular the goal step: the bonus is judged on the SUCCESSOR state")
     tm = run(ctx, lambda e, n_, kk: e.terminal(n_, key=kk), env, ns, k)
-    S.prove(f"{name}.terminal", ctx, tm.scalar() == run(ctx, term, env, ny).scalar(), function=F.format("terminal"), what="terminates iff position >= goal_position and velocity >= goal_velocity")
+    S.prove(f"{name}.terminal", ctx, tm.scalar() == run(ctx, term, env, ny).scalar(), function=F.format("terminal"), replay=cc_replay(cls, "terminal", term, 2, continuous), what="terminates iff position >= goal_position and velocity >= goal_velocity")
     _initial_range(S, None, env0, R.MOUNTAINCAR_INIT, name, F.format("initial"), ())
 
 
@@ -198,13 +232,13 @@ def unit_acrobot(S):
     dyn = run(ctx, lambda e, yy, aa: e.dynamics(jnp.asarray(0.0), yy, aa), env, y, a)
     ref = run(ctx, R.acrobot_field, env, y, a)
     for i, nm in enumerate(("dtheta1", "dtheta2", "ddtheta1", "ddtheta2")):
-        S.prove(f"Acrobot.dynamics/{nm}", ctx, ir.seq(dyn.at((i,)), ref.at((i,))), hyps=hyp, function=F.format("dynamics"), nl_budget_ms=6000,
+        S.prove(f"Acrobot.dynamics/{nm}", ctx, ir.seq(dyn.at((i,)), ref.at((i,))), hyps=hyp, function=F.format("dynamics"), nl_budget_ms=6000, replay=cc_replay(CC.Acrobot, "dynamics", R.acrobot_field, 4),
                 what="the vector field equals Gymnasium's _dsdt (book variant) for every state, action and physical parameters")
     cl = run(ctx, lambda e, yy: e.clip(yy), env, y)
     rv = run(ctx, R.acrobot_limits_velocities, env, y)
     pi = ir.zreal(Fraction(float(np.float32(np.pi))))
     S.prove("Acrobot.clip/velocity-bounds", ctx, sand(ir.seq(cl.at((2,)), rv.at((0,))), ir.seq(cl.at((3,)), rv.at((1,)))),
-            hyps=[ir.seq(env.max_vel_1.scalar(), ir.const_float(np.float32(4 * np.pi))), ir.seq(env.max_vel_2.scalar(), ir.const_float(np.float32(9 * np.pi)))], function=F.format("clip"),
+            hyps=[ir.seq(env.max_vel_1.scalar(), ir.const_float(np.float32(4 * np.pi))), ir.seq(env.max_vel_2.scalar(), ir.const_float(np.float32(9 * np.pi)))], function=F.format("clip"), replay=cc_replay(CC.Acrobot, "clip", lambda e, yy: jnp.concatenate([e.clip(yy)[:2], R.acrobot_limits_velocities(e, yy)]), 4),
             what="joint velocities are bounded by 4*pi and 9*pi respectively (Gymnasium's MAX_VEL_1 / MAX_VEL_2)")
     d1 = CC.Acrobot()
     S.fact("Acrobot.clip/default-velocity-limits", abs(float(d1.max_vel_1) - 4 * np.pi) < 1e-5 and abs(float(d1.max_vel_2) - 9 * np.pi) < 1e-5, function=F.format("clip"), what="the default limits are 4*pi and 9*pi")
@@ -213,10 +247,10 @@ def unit_acrobot(S):
     State = CC.acrobot.AcrobotState
     s, ns = State(y=y, t=jnp.asarray(0.0)), State(y=ny, t=jnp.asarray(0.0))
     rw = run(ctx, lambda e, s_, aa, n_, kk: e.reward(s_, aa, n_, key=kk), env, s, a, ns, k)
-    S.prove("Acrobot.reward/every-transition-incl-terminal-step", ctx, ir.seq(rw.scalar(), run(ctx, R.acrobot_reward, env, y, a, ny).scalar()), function=F.format("reward"),
+    S.prove("Acrobot.reward/every-transition-incl-terminal-step", ctx, ir.seq(rw.scalar(), run(ctx, R.acrobot_reward, env, y, a, ny).scalar()), function=F.format("reward"), replay=cc_replay(CC.Acrobot, "reward", R.acrobot_reward, 4),
             what="-1 per step, 0 on the step that reaches the goal height (judged on the successor)")
     tm = run(ctx, lambda e, n_, kk: e.terminal(n_, key=kk), env, ns, k)
-    S.prove("Acrobot.terminal", ctx, tm.scalar() == run(ctx, R.acrobot_terminated, env, ny).scalar(), function=F.format("terminal"), what="terminates iff -cos(theta1) - cos(theta1 + theta2) > 1")
+    S.prove("Acrobot.terminal", ctx, tm.scalar() == run(ctx, R.acrobot_terminated, env, ny).scalar(), function=F.format("terminal"), replay=cc_replay(CC.Acrobot, "terminal", R.acrobot_terminated, 4), what="terminates iff -cos(theta1) - cos(theta1 + theta2) > 1")
     _initial_range(S, None, env0, R.ACROBOT_INIT, "Acrobot", F.format("initial"), (4,))
 
 
